@@ -169,6 +169,11 @@ fn execute_iterations<'i>(
             exec_ctx,
             trace_ctx,
         );
+        if matches!(&result, Err(error) if error.is_catchable()) {
+            // a failed iteration leaves its generation incomplete, whether the failure happens in this run
+            // or is replayed from a failed state of the data (which marks the subgraph incomplete itself)
+            exec_ctx.make_subgraph_incomplete();
+        }
         throw_error_if_not_catchable(result)?;
         trace_to_exec_err!(trace_ctx.meet_generation_end(ingredients.fold_id), fold_to_string)?;
 
